@@ -23,6 +23,11 @@ Collection._init_, _link_reverse_attrs_, Attribute.linked, generate_mapping (rea
    or its bases, and no two of them (nor the pk) use the same attribute list.
 Names are unique by construction after case folding and truncation to the dialect limit unless the spec draws
 collide=True (about 1 spec in 6), where near-identical / case-variant names are allowed on purpose.
+One deliberate exception: about a third of the explicit many-to-many table= names reuse a name that is already taken in the
+schema (an entity's explicit _table_, an entity's default table name, or the explicit link table of an earlier relationship),
+declared on either end or both: such a declaration cannot be mapped, Pony has to reject it (and must never rename it).
+Entities whose primary key spans several columns (composite, or ONE reference to such an entity) are preferred as targets of
+pk references and as ends of many-to-many relationships, so that multi-column link-table halves with default names are common.
 """
 from hypothesis import strategies as st
 
@@ -199,6 +204,9 @@ def cases(draw, dialects=None):
             earlier_roots = [x for x in ents[:-1]]
             if kind in ('composite_ref', 'single_ref') and not earlier_roots:
                 kind = 'composite'
+            wide_roots = [x for x in earlier_roots if pk_width[root_of[x['name']]] > 1]
+            if kind in ('composite_ref', 'single_ref') and wide_roots and draw(st.booleans()):
+                earlier_roots = wide_roots      # a reference to a multi-column primary key
             if kind == 'implicit':
                 pk_width[name] = 1
             elif kind in ('single', 'auto'):
@@ -317,12 +325,35 @@ def cases(draw, dialects=None):
     for e in ents:
         e.pop('_disc_int', None)
 
-    kinds = ['o2m_req', 'o2m_req', 'o2m_opt', 'o2m_opt', 'o2o_req', 'o2o_opt', 'm2m', 'm2m', 'self_tree', 'self_sym_m2m',
-             'self_sym_o2o', 'self_m2m']
+    kinds = ['o2m_req', 'o2m_req', 'o2m_opt', 'o2m_opt', 'o2o_req', 'o2o_opt', 'm2m', 'm2m', 'm2m', 'self_tree',
+             'self_sym_m2m', 'self_sym_o2o', 'self_m2m']
+    link_tables = []           # explicit (unqualified) link-table names used so far
+
+    def default_table_guess(ename):
+        n = {'sqlite': ename, 'postgres': ename.lower(), 'mysql': ename.lower(), 'oracle': ename.upper()}[dialect]
+        return n[:LIMITS[dialect]]
+
+    def link_table_name():
+        """a fresh explicit link-table name or, one time in three, a name that is already taken in the schema"""
+        taken = [x['table'] for x in ents if isinstance(x['table'], str)]
+        taken += [default_table_guess(x['name']) for x in ents if not x['bases'] and x['table'] is None]
+        taken += link_tables
+        if taken and draw(st.integers(0, 2)) == 0:
+            t = draw(st.sampled_from(taken))
+        else:
+            t = nm.table()
+        link_tables.append(t)
+        return t
+
+    wide_ents = [x for x in ents if pk_width[root_of[x['name']]] > 1]
     for _ in range(draw(st.integers(0, 4))):
         kind = draw(st.sampled_from(kinds))
         e1 = draw(st.sampled_from(ents))
+        if kind in ('m2m', 'self_m2m', 'self_sym_m2m') and wide_ents and draw(st.integers(0, 2)) == 0:
+            e1 = draw(st.sampled_from(wide_ents))       # a link-table half that spans several columns
         e2 = e1 if kind.startswith('self') else draw(st.sampled_from(ents))
+        if kind == 'm2m' and draw(st.booleans()):
+            e1, e2 = e2, e1
         n1, n2 = e1['name'], e2['name']
         s1, s2 = root_of[n1], root_of[n2]
         note_pair(n1, n2)
@@ -418,8 +449,8 @@ def cases(draw, dialects=None):
                     a['opts']['reverse_columns'] = [nm.column(tscope) for _ in range(w)]
                 if qualify and dialect == 'sqlite':
                     a['opts']['table'] = [schema_name, nm.table()]
-                elif draw(st.integers(0, 3)) == 0:
-                    a['opts']['table'] = nm.table()
+                elif draw(st.integers(0, 2)) == 0:
+                    a['opts']['table'] = link_table_name()
                 if draw(st.integers(0, 7)) == 0:
                     a['opts']['index'] = nm.constraint()
                 if draw(st.integers(0, 7)) == 0:
@@ -445,8 +476,8 @@ def cases(draw, dialects=None):
                 a['opts']['table'] = t
                 if draw(st.booleans()):
                     b['opts']['table'] = t
-            elif draw(st.integers(0, 3)) == 0:
-                t = nm.table()
+            elif draw(st.integers(0, 2)) == 0:
+                t = link_table_name()
                 which = draw(st.integers(0, 2))
                 if which in (0, 2):
                     a['opts']['table'] = t
